@@ -337,6 +337,11 @@ Definition oracle_model_langid (op : bytes) (args : list bytes) : option bytes :
   if beqb op (bs "langid") then Some (fmt_res fmt_langid (langid_from_bytes a))
   else if beqb op (bs "li_canonicalize") then Some (fmt_res (fun x => x) (li_canonicalize a))
   else if beqb op (bs "li_roundtrip") then Some (model_li_roundtrip a)
+  else if beqb op (bs "li_iter") then
+    Some (match langid_from_iter (split a) (flag (arg_n 1 args)) with
+          | Ok (v, rem) => bs "OK " ++ fmt_langid v ++ bs " R" ++ hex (N.of_nat (List.length rem))
+          | Err e => fmt_err e
+          | _ => bs "PANIC" end)
   else if beqb op (bs "li_from_parts") then
     Some (match parts_of_args args with
           | Some (l, s0, r, vs) =>
@@ -391,6 +396,14 @@ Definition oracle_spec_langid (op : bytes) (args : list bytes) (impl : bytes) : 
     Some (match spec_langid (split a) with
           | Some v => beqb impl (bs "OK " ++ fmt_langid v)
           | None => beqb impl (fmt_err (spec_langid_err (split a))) end)
+  else if beqb op (bs "li_iter") then
+    (* C02_iter: the longest well-formed prefix; leftovers returned (allow_extension) or rejected *)
+    Some (match spec_langid_prefix (split a) with
+          | Some (v, rem) =>
+            if negb (flag (arg_n 1 args)) && negb (match rem with [] => true | _ => false end)
+            then beqb impl (fmt_err InvalidSubtag)
+            else beqb impl (bs "OK " ++ fmt_langid v ++ bs " R" ++ hex (N.of_nat (List.length rem)))
+          | None => beqb impl (fmt_err InvalidLanguage) end)
   else if beqb op (bs "li_canonicalize") then
     Some (match spec_langid (split a) with
           | Some v => beqb impl (bs "OK " ++ li_to_string v)
@@ -597,6 +610,11 @@ Definition oracle_model_locale (op : bytes) (args : list bytes) : option bytes :
               end
             end
           | _ => bs "BADARG" end)
+  else if beqb op (bs "loc_built") then
+    (* a Locale built through the API: id and tlang both the identifier before the first singleton *)
+    Some (match langid_from_bytes (join (before_single (split a))) with
+          | Ok v => bs "OK " ++ loc_to_string (mkLoc v (mkE uext_default (mkT (Some v) []) []))
+          | _ => bs "BADARG" end)
   else if beqb op (bs "big") then Some (bs "DONE")
   else if beqb op (bs "facade") then
     let dbg (r : res bytes) := match r with Ok t => bs "Ok(" ++ [34] ++ t ++ [34] ++ bs ")" | _ => bs "Err(())" end in
@@ -680,6 +698,11 @@ Definition oracle_spec_locale (op : bytes) (args : list bytes) (impl : bytes) : 
           | MustAccept _ => beqb impl (bs "PRE-SAME")
           | _ => true end)
   else if beqb op (bs "loc_into_parts") then Some (beqb impl (bs "OK same") || beqb impl (bs "BADARG"))
+  else if beqb op (bs "loc_built") then
+    (* C17_parts_locale / C05_locale on a built value: the laws hold, and the text is the canonical one *)
+    Some (match spec_langid (before_single (split a)) with
+          | Some v => beqb impl (bs "OK " ++ loc_to_string (mkLoc v (mkE uext_default (mkT (Some v) []) [])))
+          | None => beqb impl (bs "BADARG") end)
   else if beqb op (bs "loc_matches") then
     Some (match spec_locale_zone (split (arg_n 0 args)), spec_locale_zone (split (arg_n 1 args)) with
           | MustAccept x, MustAccept y =>
